@@ -38,8 +38,6 @@ func SpecPrelude(p *Program, u *Universe) (text string, axiomNames []string, err
 		}
 	}()
 	var b strings.Builder
-	b.WriteString("(declare-fun fld (Int Int) Int)\n(declare-fun fld.base (Int) Int)\n(declare-fun fld.idx (Int) Int)\n")
-	b.WriteString("(assert (forall ((r Int) (k Int)) (! (and (< (fld r k) 0) (= (fld.base (fld r k)) r) (= (fld.idx (fld r k)) k)) :pattern ((fld r k)))))\n")
 	b.WriteString("(declare-fun iface.eq (Iface Iface) Bool)\n")
 	b.WriteString("(assert (forall ((a Iface)) (! (iface.eq a a) :pattern ((iface.eq a a)))))\n")
 	b.WriteString("(assert (forall ((a Iface) (b Iface)) (! (=> (iface.eq a b) (= (i.typ a) (i.typ b))) :pattern ((iface.eq a b)))))\n")
